@@ -250,4 +250,13 @@ example : ((cowRun cow0 [.openFile "/f".toList O_RDWR 0, .hWrite 0 [7], .hClose 
     copyOnWriteFs.go by harness/cmd/facts) -/
 theorem cowWriteMask_is_source : cowWriteMask = Generated.cowWriteMask := by decide
 
+/-- per exported method of `CopyOnWriteFs`: number of calls of `copyToLayer` and of `isBaseFile`, as
+    extracted from the current copyOnWriteFs.go — the methods that copy up (and only those) are the
+    ones the model copies up in: Chmod, Chown, Chtimes, OpenFile -/
+theorem cow_methods_are_source : Generated.cowCalls =
+    [("Chmod", [1, 1]), ("Chown", [1, 1]), ("Chtimes", [1, 1]), ("Create", [0, 0]), ("LstatIfPossible", [0, 0]),
+     ("Mkdir", [0, 0]), ("MkdirAll", [0, 0]), ("Name", [0, 0]), ("Open", [0, 1]), ("OpenFile", [1, 1]),
+     ("ReadlinkIfPossible", [0, 0]), ("Remove", [0, 0]), ("RemoveAll", [0, 0]), ("Rename", [0, 1]), ("Stat", [0, 0]),
+     ("SymlinkIfPossible", [0, 0])] := by decide
+
 end AferoVerif.C05
